@@ -504,8 +504,10 @@ def run_case(run, case, deadline=None):
                 continue
             # requirements of the real code (no crash inside numpy semantics)
             for cond, msg in c.requirements:
-                r, m = c.prove(cond)
                 nm = "%s.no-crash" % case.name
+                if agg.get(nm, {}).get("sat"):
+                    break
+                r, m = c.prove(cond)
                 if r == "unsat":
                     note(nm, "unsat")
                 elif r == "sat":
